@@ -1,7 +1,8 @@
 #!/bin/sh
 # tools/seed_matrix.sh [seed-id ...]  -- run checks against every seeded change in scratch worktrees; one line per seed.
 # Default: the seed's own property plus the properties listed in its meta.json "related" (if any); CHECKS="C01 C02 ..."
-# overrides; CHECKS=all runs every claimed check.
+# overrides; CHECKS=all runs every claimed check.  After each exit code: [D:<n> B:<m>] = number of violated deductive /
+# bounded obligations (bounded stand-ins have ".bounded." in their id).
 HERE="$(cd "$(dirname "$0")/.." && pwd)"
 cd "$HERE"
 SEEDS="$@"
@@ -13,6 +14,17 @@ for s in $SEEDS; do
     REL=$(/venv/bin/python -c "import json; print(' '.join(json.load(open('seeded/$s/meta.json')).get('related', [])))")
     LIST="$P $REL"
   fi
-  OUT=$(tools/mutant_run.sh seeded/$s/patch.diff $LIST 2>&1 | grep "^==" | tr '\n' ' ')
+  OUT=$(tools/mutant_run.sh seeded/$s/patch.diff $LIST 2>&1 | /venv/bin/python -c "
+import sys, re
+cur = None; res = []
+for l in sys.stdin:
+    m = re.match(r'^== (C\d\d) exit=(\d+)', l)
+    if m:
+        cur = [m.group(1), m.group(2), 0, 0]; res.append(cur); continue
+    if cur and l.startswith('VIOLATION'):
+        if '.bounded.' in l: cur[3] += 1
+        else: cur[2] += 1
+print(' '.join(f'== {p} exit={rc} [D:{d} B:{b}]' for p, rc, d, b in res))
+")
   echo "$s: $OUT"
 done
